@@ -1,6 +1,9 @@
-"""C17 -- remove deletes exactly the selected substances.  Oracle: per addressed container/well no selected substance remains, every other amount is bit-identical, the volume equals the volume of what remains and dropped by the volume of what was removed, name and capacity are kept; other wells identical."""
+"""C17 -- remove deletes exactly the selected substances.  Recipe clause: every remove step of generated recipes (containers, whole
+plates, slices) is made a stage of its own and get_substance_used is asked, per substance, over that stage with the step's target as
+the only destination: net gain (negative: what was removed, from the independent eager ledger) + reported discarded must be zero;
+the same recipes run on the model (Recipe.v) for the correspondence.  Oracle: per addressed container/well no selected substance remains, every other amount is bit-identical, the volume equals the volume of what remains and dropped by the volume of what was removed, name and capacity are kept; other wells identical."""
 import random
-import common, dsl, gen, histcheck, oracles
+import common, dsl, gen, histcheck, oracles, recipes
 from props import C01 as base
 
 RULE = 'non-trivial = remove that actually deletes something from a container/well holding >= 2 substances; distinct by (target kind, selector, kinds present)'
@@ -22,11 +25,86 @@ def nontrivial(prog, obs):
     return [(('c' if 'c' in op['t'] else 'p'), str(op['w'])) for op, o in zip(prog['ops'], obs) if o['ok'] and op['op'] == 'remove']
 
 
+def recipe_cases(chk):
+    """recipes with remove steps; each step is its own stage; queries: every substance over each remove step, destination = its target"""
+    n = 14 if chk.tier == 'quick' else 150
+    cases = []
+    i = 0
+    while len(cases) < n and i < 12 * n:
+        rng = random.Random(chk.seed * 100003 + 61000 + i)
+        i += 1
+        rg = recipes.RecipeGen(rng, rng.randint(2, 7), allow_d13=False)
+        if rg.failed is not None:
+            continue
+        # directed: load a whole plate from a container, then remove from PART of it something the other wells keep
+        E = rg.eager
+        ps = rg.plates()
+        srcs = [c for c in rg.containers() if E.env[c].volume > 50 and len(E.env[c].contents) >= 1]
+        if ps and srcs:
+            P, S = rng.choice(ps), rng.choice(srcs)
+            whole = rg.whole(P)
+            cells = dsl.region_cells(whole, 0)
+            free = min(E.env[P].wells[a, b].max_volume - E.env[P].wells[a, b].volume for a, b in cells)
+            f = min(0.3, 0.5 * free / E.env[S].volume * len(cells))
+            if f > 0.001 and len(cells) >= 2:
+                q, b = rg.g.transfer_qty(E.env[S], f, nshare=len(cells))
+                rg.try_step({'op': 'transfer', 'src': {'c': S}, 'dst': {'p': P, 'r': whole}, 'q': q})
+                for _ in range(rng.randint(1, 2)):
+                    if rg.failed is not None:
+                        break
+                    r = rg.region(P)
+                    tries = 0
+                    while r == whole and tries < 5:
+                        r = rg.region(P)
+                        tries += 1
+                    present = [E.byname[x.name] for x in E.env[S].contents]
+                    w = {'s': rng.choice(present)} if rng.random() < 0.7 else {'k': rng.choice(['Solid', 'Liquid', 'Enzyme'])}
+                    rg.try_step({'op': 'remove', 't': {'p': P, 'r': r}, 'w': w}, 'remove:part-of-loaded-plate')
+        removes = [(k, st) for k, st in enumerate(rg.steps) if st['op'] == 'remove']
+        if not removes or rg.failed is not None:
+            continue
+        rg.stages = [{'name': f"st{k}", 'start': k, 'stop': k + 1} for k in range(len(rg.steps))]
+        qs = []
+        for k, st in removes:
+            target = st['t']['c'] if 'c' in st['t'] else st['t']['p']
+            for sd in rg.subs:
+                qs.append({'q': 'used', 's': sd['id'], 'stage': f"st{k}", 'unit': 'U' if sd['kind'] == 'Enzyme' else 'umol', 'dests': [target]})
+        cases.append((rg, qs))
+    return cases
+
+
+def recipe_oracle(prog, rg, out, qres):
+    from props import C09
+    fails, known = C09.oracle(prog, rg, out, qres)
+    return ["recipe remove step: what usage tracking reports as discarded differs from what the step removed -- " + f for f in fails], known
+
+
+def recipe_nontrivial(prog, rg, out, qres):
+    keys = []
+    if out[0] != 'ok' or rg.failed is not None:
+        return keys
+    for q in prog['queries']:
+        k = int(q['stage'][2:])
+        if rg.eager.trash[k].get(q['s']):
+            st = prog['steps'][k]
+            keys.append(('recipe', 'c' if 'c' in st['t'] else ('whole' if 'rect' in st['t'].get('r', {}) else 'slice'), str(st['w'])))
+    return keys
+
+
 def run(chk, gate, status):
     gens = make_cases(chk)
-    chk.assumptions += ['the recipe-level clause (discarded amounts in usage tracking) is checked by C09']
-    return histcheck.run(chk, gens, oracles.c17, 'C17', RULE, nontrivial)
+    cov = histcheck.run(chk, gens, oracles.c17, 'C17', RULE, nontrivial)
+    rc = recipes.check(chk, 'C17r', recipe_cases(chk), recipe_oracle, RULE, recipe_nontrivial)
+    cov['recipe_clause'] = {k: rc[k] for k in ('programs', 'queries', 'distinct_nontrivial', 'disagreements_checked', 'oracle_failures')}
+    cov['evaluations'] += rc['evaluations']
+    cov['programs'] += rc['programs']
+    cov['disagreements_checked'] += rc['disagreements_checked']
+    cov['oracle_failures'] += rc['oracle_failures']
+    return cov
 
 
 def replay(path):
+    import json
+    if 'recipe' in json.load(open(path)):
+        return recipes.replay(path, recipe_oracle)
     return histcheck.replay(path, oracles.c17)
